@@ -157,13 +157,15 @@ static struct { int armed; long calls, failed, fail1, fail2, live; void* set[WSE
 static void wset_add(void* p) { size_t i = ((uintptr_t)p >> 4) * 2654435761u % WSET; unsigned n = 0; while (W.set[i] && W.set[i] != (void*)1 && n++ < WSET) i = (i + 1) % WSET; if (n < WSET) { W.set[i] = p; W.live++; } }
 static int wset_del(void* p) { size_t i = ((uintptr_t)p >> 4) * 2654435761u % WSET; unsigned n = 0; while (W.set[i] && n++ < WSET) { if (W.set[i] == p) { W.set[i] = (void*)1; W.live--; return 1; } i = (i + 1) % WSET; } return 0; }
 static int wfail(void) { W.calls++; if ((W.fail1 && W.calls == W.fail1) || (W.fail2 && W.calls == W.fail2)) { W.failed++; sim_fault_fired("libc_alloc_fail_kth"); return 1; } return 0; }
-void* __wrap_malloc(size_t n) { void* p; if (!W.armed) return __real_malloc(n); if (wfail()) return NULL; p = __real_malloc(n); if (p) wset_add(p); return p; }
+static int g_wrap_fill = -1;   /* >= 0: every block from malloc() is filled with this byte while armed, so that a read of uninitialised heap memory replays identically and differs between two runs that use different bytes */
+void sim_wrap_fill(int byte) { g_wrap_fill = byte; }
+void* __wrap_malloc(size_t n) { void* p; if (!W.armed) return __real_malloc(n); if (wfail()) return NULL; p = __real_malloc(n); if (p) { wset_add(p); if (g_wrap_fill >= 0) memset(p, g_wrap_fill, n); } return p; }
 void* __wrap_calloc(size_t a, size_t b) { void* p; if (!W.armed) return __real_calloc(a, b); if (wfail()) return NULL; p = __real_calloc(a, b); if (p) wset_add(p); return p; }
 void* __wrap_realloc(void* o, size_t n) { void* p; if (!W.armed) { if (o && W.live) wset_del(o); return __real_realloc(o, n); } if (wfail()) return NULL; if (o) wset_del(o); p = __real_realloc(o, n); if (p) wset_add(p); return p; }
 void  __wrap_free(void* p) { if (p && W.live) wset_del(p); __real_free(p); }
 void sim_wrap_arm(long fail1, long fail2) { if (W.live == 0) memset(W.set, 0, sizeof W.set); W.calls = W.failed = 0; W.fail1 = fail1; W.fail2 = fail2; W.armed = 1; }
 void sim_wrap_disarm(void) { W.armed = 0; }
-void sim_wrap_reset(void) { W.armed = 0; memset(W.set, 0, sizeof W.set); W.live = 0; W.calls = W.failed = 0; }
+void sim_wrap_reset(void) { g_wrap_fill = -1; W.armed = 0; memset(W.set, 0, sizeof W.set); W.live = 0; W.calls = W.failed = 0; }
 long sim_wrap_calls(void) { return W.calls; }
 long sim_wrap_failed(void) { return W.failed; }
 long sim_wrap_live(void) { return W.live; }
